@@ -139,6 +139,10 @@ type Run struct {
 	exhaustive map[string]bool
 	notes      []string
 	t          testing.TB
+
+	dangerMu    sync.Mutex
+	dangerStack [][]byte
+	pendingFile *os.File
 }
 
 // Begin starts a run for a property; call Finish (deferred) to write stats.
@@ -397,6 +401,10 @@ func LoadReplay(path string) (*ReplayFile, error) {
 // escaping the code under test, a fatal runtime error), the violation that
 // such a death would mean. Safe removes the record. If the process dies in
 // between, the driver finds the file and reports the violation.
+//
+// Brackets nest (Safe restores the record of the enclosing bracket). The record
+// lives in one file per process that is kept open: an empty file means "no
+// dangerous step in progress".
 func (r *Run) Danger(sub, signature, message string, c any) {
 	raw, err := json.Marshal(c)
 	if err != nil {
@@ -404,13 +412,39 @@ func (r *Run) Danger(sub, signature, message string, c any) {
 	}
 	rf := ReplayFile{Property: r.Property, Sub: sub, Signature: signature, Message: message, Case: raw}
 	data, _ := json.Marshal(rf)
-	os.MkdirAll(r.Env.OutDir, 0o755)
-	os.WriteFile(filepath.Join(r.Env.OutDir, fmt.Sprintf("%s.%s.%d.pending", r.Property, stageName(), r.Env.Shard)), data, 0o644)
+	r.dangerMu.Lock()
+	defer r.dangerMu.Unlock()
+	r.dangerStack = append(r.dangerStack, data)
+	r.writePending(data)
 }
 
-// Safe removes the record written by Danger.
+// Safe ends the innermost bracket opened by Danger.
 func (r *Run) Safe() {
-	os.Remove(filepath.Join(r.Env.OutDir, fmt.Sprintf("%s.%s.%d.pending", r.Property, stageName(), r.Env.Shard)))
+	r.dangerMu.Lock()
+	defer r.dangerMu.Unlock()
+	if n := len(r.dangerStack); n > 0 {
+		r.dangerStack = r.dangerStack[:n-1]
+	}
+	if n := len(r.dangerStack); n > 0 {
+		r.writePending(r.dangerStack[n-1])
+		return
+	}
+	r.writePending(nil)
+}
+
+func (r *Run) writePending(data []byte) {
+	if r.pendingFile == nil {
+		os.MkdirAll(r.Env.OutDir, 0o755)
+		f, err := os.OpenFile(filepath.Join(r.Env.OutDir, fmt.Sprintf("%s.%s.%d.pending", r.Property, stageName(), r.Env.Shard)), os.O_CREATE|os.O_RDWR|os.O_TRUNC, 0o644)
+		if err != nil {
+			return
+		}
+		r.pendingFile = f
+	}
+	if len(data) > 0 {
+		r.pendingFile.WriteAt(data, 0)
+	}
+	r.pendingFile.Truncate(int64(len(data)))
 }
 
 func stageName() string {
